@@ -574,6 +574,12 @@ func EncodeDatapoint(mName []byte, tags *TagsHolder, dp float64, timestamp uint3
 	// In addition, we need to always write at least one datapoint to the series to avoid panics on time based flushing
 
 	if !seriesExists {
+		// the tags first: when they cannot be added, the block must not be left with a series that no query can reach
+		err = tth.AddTagsForTSID(mName, tags, tsid)
+		if err != nil {
+			log.Errorf("EncodeDatapoint: failed to add tags for tsid=%v, metric=%s, orgid=%v, err=%v", tsid, mName, orgid, err)
+			return err
+		}
 		ts, bytesWritten, err = initTimeSeries(tsid, dp, timestamp)
 		if err != nil {
 			log.Errorf("EncodeDatapoint: failed to create time series for tsid=%v, dp=%v, timestamp=%v, metric=%s, orgid=%v, err=%v",
@@ -599,11 +605,6 @@ func EncodeDatapoint(mName []byte, tags *TagsHolder, dp float64, timestamp uint3
 					tsid, dp, timestamp, mName, orgid, err)
 				return err
 			}
-		}
-		err = tth.AddTagsForTSID(mName, tags, tsid)
-		if err != nil {
-			log.Errorf("EncodeDatapoint: failed to add tags for tsid=%v, metric=%s, orgid=%v, err=%v", tsid, mName, orgid, err)
-			return err
 		}
 	} else {
 		bytesWritten, err = ts.AddSingleEntry(dp, timestamp)
